@@ -156,7 +156,7 @@ CONC = {
                 trusted_base=TB_CONC,
                 assumptions=['each item calls WgCounter.Done exactly once (per-item protocol: SliceJob theorems C10_closed_once / C01)',
                              'tagging of results with the item id and value fidelity: monitored (stream contents vs. a pure function of the item), not modelled']),
-    'C10': dict(module='Properties.C10', file='Properties/C10.v', slices=['job'],
+    'C10': dict(module='Properties.C10', file='Properties/C10.v', slices=['job', 'batch'],
                 families=['cancel', 'batch', 'lifecycle'],
                 quick_episodes=350, thorough_episodes=4000,
                 native=dict(scenarios=['bigbatch'], rounds=1, thorough_rounds=1),
@@ -231,7 +231,7 @@ CONC = {
                 assumptions=['NumProcessing <= limit rests on the dispatcher reserving a slot only below the limit, with a single current event loop (C02)',
                              'metrics counters are single atomic adds (monitored, not modelled); Metrics().Reset() is excluded']),
     'C16': dict(module='Properties.C16', file='Properties/C16.v', slices=['job'],
-                families=['burst', 'lifecycle', 'cancel'],
+                families=['burst', 'lifecycle', 'cancel', 'ctxstop'],
                 quick_episodes=350, thorough_episodes=4000,
                 rule=SLICE_JOB_RULE, trusted_base=TB_CONC,
                 assumptions=['jobs rebuilt by parseToJob from stored entries have no handle; their status word starts from whatever the entry says']),
